@@ -132,12 +132,13 @@ Proof.
     destruct (_ <? _); [repeat split|].
     eapply eq_swp_trans; [|apply swp_rel_scan_k; intros; apply swp_init_params]. repeat split.
   - destruct (alldone (mt s) && negb (ended (mt s))); [apply swp_stop_ops|].
+    destruct (ended (mt s) && (0 <? i) && negb (is_continue e)); [apply swp_stop_ops|].
     destruct (ended (mt s) && is_continue e).
-    + assert (H0 : eq_swp s (record_res RErr (set_cl (mkCl (c_pc (cl s)) r e e false i o i o (c_use (cl s)) (c_fp (cl s)) (c_res (cl s)))
-             (if ended (mt s) && (0 <? i) then set_gh (mkG (g_out (gh s)) (g_fin (gh s)) (g_ck (gh s)) true) s else s)))).
-      { destruct (ended (mt s) && (0 <? i)); repeat split. }
-      destruct r as [|[fp|e' i' o'] r']; (eapply eq_swp_trans; [exact H0|]); try apply swp_stop_ops; apply IH.
-    + eapply eq_swp_trans; [|apply swp_gen_body]. destruct (ended (mt s) && (0 <? i)); repeat split.
+    + destruct r as [|[fp|e' i' o'] r'].
+      * eapply eq_swp_trans; [|apply IH]. repeat split.
+      * eapply eq_swp_trans; [|apply IH]. repeat split.
+      * eapply eq_swp_trans; [|apply swp_stop_ops]. repeat split.
+    + eapply eq_swp_trans; [|apply swp_gen_body]. repeat split.
 Qed.
 
 Lemma swp_finish_op cfg s r : eq_swp s (finish_op cfg s r).
@@ -279,7 +280,7 @@ Proof.
   unfold init. destruct (swp_start_ops cfg ops (mkS (mkMt 0 0 false false true 0 0 false 0 0 0 0 1 0 false false false [] 0 0 0 0)
     (repeat job0 (N.to_nat (mask cfg) + 1)) (mkSer 0 [] false win0 win0)
     (mkPl None 0 0 (2 * N.of_nat (c_nbw cfg) + 3) 1 (N.of_nat (c_nbw cfg)) 0 (N.of_nat (c_nbw cfg)) false)
-    (mkCl CDone [] EContinue EContinue false 0 0 0 0 (0, 0) fp0 []) (repeat w0 (c_nbw cfg)) (mkG [] [] [] false))) as (H & _ & _).
+    (mkCl CDone [] EContinue EContinue false 0 0 0 0 (0, 0) fp0 []) (repeat w0 (c_nbw cfg)) (mkG [] [] []))) as (H & _ & _).
   unfold SerSorted. rewrite H. cbn. split; constructor.
 Qed.
 
